@@ -164,7 +164,16 @@ def check_executor(facts, cls, res, expected_flags, weff=None, full=True):
             continue
         good = [g for g in st.guards if sympy.simplify(g["expr"] - (H - U)) == 0 and g["op"] == ">"]
         res.instance("C12.3.leaf-guard", "%s::%s" % (cls, stage), facts.loc(st.fn), "guards: %s" % [(str(g["expr"]), g["op"]) for g in st.guards])
-        bad = not good or any(not any(a is g["node"] for g in good for a in tbf.ancestors(c["node"])) for c in st.wrapper_calls)
+        def covered(c):
+            for g in good:
+                if any(a is g["node"] for a in tbf.ancestors(c["node"])):
+                    return True
+                if g.get("early"):          # `if(!(H > U)) return;` in front of the call, in a block that encloses it
+                    blk = g["node"].get("_p")
+                    if blk is not None and any(a is blk for a in tbf.ancestors(c["node"])) and (c["node"]["l"][1], c["node"].get("b", 0)) > (g["node"]["l"][1], g["node"].get("b", 0)):
+                        return True
+            return False
+        bad = not good or any(not covered(c) for c in st.wrapper_calls)
         if bad:
             res.violation("C12.3.leaf-guard", tbf.rel(facts.path_of(st.fn)), st.fn["qname"], "guard", st.fn["l"][1],
                           "leaf-level operator is not guarded by `tree height > upper working level` (found %s)" % [(str(g["expr"]), g["op"]) for g in st.guards])
